@@ -435,7 +435,28 @@ pub fn c04_str(ctx: &mut Ctx, log: &mut Log, im: &mut Impl, or: &mut Oracle) {
         let Some(mut d) = start_stream_parser(log, im, b, mc, case.id, case.role, case.flags, &[], "C04") else { continue };
         let mode = *rng.pick(&[Mode::Dest, Mode::Internal, Mode::Mixed]);
         let early = rng.chance(1, 4);
-        let _ = drive_schedule(log, im, or, &mut rng, &mut d, &wire, 0, case.role, mode, early, 64);
+        // targeted: the caller changes the active stream while a GetValues body is only partly parsed — the query is still owed its reply
+        let mut pos0 = 0usize;
+        if let Some(gi) = case.recs.iter().position(|r| r.rtype == T_GETVALUES && r.id == 0 && r.content.len() >= 2) { if rng.chance(1, 2) {
+            let off: usize = case.recs[..gi].iter().map(|r| r.ser().len()).sum();
+            let cut = off + 8 + 1 + rng.usize_below(case.recs[gi].content.len() - 1);
+            let mut ok = true;
+            while pos0 < cut && ok {
+                if !d.buf.is_empty() { let n = d.buf.len(); d.simple(log, im, &format!("str.consume {n}")); }
+                if d.free == 0 { d.simple(log, im, "str.compress"); if d.free == 0 { ok = false; break; } }
+                let n = (1 + rng.usize_below(40)).min(cut - pos0).min(d.free);
+                ok = d.parse(log, im, or, &wire[pos0..pos0 + n], None); pos0 += n;
+                if d.last_end { break; }
+            }
+            if ok && pos0 == cut && !d.last_end { if let Some(cur) = d.active {
+                let streams = role_streams(case.role); let idx = streams.iter().position(|&x| x == cur).unwrap_or(streams.len());
+                let next = streams.get(idx + 1).copied();
+                if !d.buf.is_empty() { let n = d.buf.len(); d.simple(log, im, &format!("str.consume {n}")); }
+                d.simple(log, im, &format!("str.set_stream {}", next.map_or("none".to_string(), |n| n.to_string())));
+                or.count("set_stream_inside_getvalues_body");
+            } }
+        } }
+        let _ = drive_schedule(log, im, or, &mut rng, &mut d, &wire, pos0, case.role, mode, early, 64);
         if d.panicked { continue; }
         if d.calls == wire.len() && d.emitted != case.expected_out {
             let k = d.emitted.iter().zip(case.expected_out.iter()).position(|(a, b)| a != b).unwrap_or(d.emitted.len().min(case.expected_out.len()));
